@@ -448,6 +448,17 @@ func (p *Prog) directCallEffects(srt *sorter, fn *ssa.Function, in ssa.CallInstr
 	}
 	// library: effects on arguments
 	name := sc.String()
+	if fc, ok := p.libs[name]; ok {
+		for _, c := range fc.Clauses {
+			if c.Kind == "modifies" || c.Kind == "havocs" {
+				for _, loc := range splitTopLevel(c.Text) {
+					if _, isG := p.ghostGlobals[strings.TrimSpace(loc)]; isG {
+						ms.add("GG$" + strings.TrimSpace(loc))
+					}
+				}
+			}
+		}
+	}
 	if why, ok := blockingLib[name]; ok {
 		ms.Blocks, ms.BlockWhy = true, why
 	}
